@@ -457,7 +457,14 @@ struct RefusingExecutor : public babylon::Executor {
     next_id = -1;
     if (id < 0) dsched::fail("harness", "invoke() without a pending attempt");
     dsched::point();
-    if (W->spec[(size_t)id].refuse) return -1;  // not moved away, never called
+    if (W->spec[(size_t)id].refuse) {
+      // "!= 0: front-end transfer failed" (BasicExecutor::invoke): any non-zero code is a refusal, negative or
+      // errno-style positive. Derived from the case, not drawn, so that saved replays keep their meaning.
+      static const int codes[] = {-1, 1, 11 /*EAGAIN*/, 12 /*ENOMEM*/, INT32_MIN, INT32_MAX, -22};
+      int code = codes[((size_t)id * 3 + W->spec.size()) % (sizeof(codes) / sizeof(codes[0]))];
+      dsched::label(code > 0 ? "refused_with_positive_code" : "refused_with_negative_code");
+      return code;  // not moved away, never called
+    }
     RunnerScope scope{*this};
     function();
     return 0;
